@@ -7,7 +7,8 @@ THEOREMS = ["Genql.C09." + t for t in [
     "sel_total_no_panic", "parse_no_panic", "evalSteps_keys", "key_on_object", "key_maps_arrays", "missing_key_null",
     "index_in_range", "index_out_of_range_error", "range_is_slice", "range_out_of_bounds_error", "each_iterates",
     "each_flattens", "dims_eq_flattened_keep", "keep_preserves_nesting", "continue_is_composition", "pipe_reshape",
-    "quoted_key_literal", "toplevel_fn_applied_last", "mix_flat_idempotent", "wrong_shape_error", "parse_keys", "exec_keys",
+    "quoted_key_literal", "toplevel_fn_applied_last", "toplevel_fn_registered_now", "registered_again_overrides",
+    "register_other_untouched", "parse_is_registry_free", "registered_now_text", "mix_flat_idempotent", "wrong_shape_error", "parse_keys", "exec_keys",
     "print_parse_roundtrip"]]
 TRUSTED = ["Go regexp (the three tokenizer patterns are re-implemented by hand in the model; agreement is checked by the "
            "correspondence on grammar-derived, mutated and random selector strings)", "fmt %v / %d / %f and strconv.ParseFloat in pipes"]
@@ -217,8 +218,10 @@ def explore(chk, rnd, tier):
             rreqs.append({"op": "reader", "doc": enc_val(doc), "selector": name + "=>" + sel, "topName": name, "topImpl": im})
             rmeta.append(im)
     routs = run_go([dict(r) for r in rreqs]) if rreqs else []
+    # the model evaluates each request under `register builtins name <impl>` (Sel.execReaderWith: C09.toplevel_fn_registered_now)
+    rleans = run_lean([dict(r) for r in rreqs]) if rreqs else []
     plain = None
-    for r, im, o in zip(rreqs, rmeta, routs):
+    for r, im, o, l in zip(rreqs, rmeta, routs, rleans):
         if im is None:
             plain = o
             continue
@@ -227,8 +230,10 @@ def explore(chk, rnd, tier):
             ok = o.get("r") == plain.get("r")
         else:
             ok = o.get("r") == "ok" and canon(dec_val(o["v"])) == canon(apply[im](dec_val(plain["v"])))
+        if ok and l.get("r") != "oom":
+            ok = o.get("r") == l.get("r") and (o.get("r") != "ok" or canon(dec_val(o["v"])) == canon(dec_val(l["v"])))
         if not ok:
-            chk.add_violation("top-level-function-registered-again", {"request": r, "impl": o, "plain_path_result": plain,
+            chk.add_violation("top-level-function-registered-again", {"request": r, "impl": o, "model": l, "plain_path_result": plain,
                                                                       "expected": "the function registered last (" + im + ") applied to the plain result"})
             break
     chk.cov["registration_sequences"] = len(seqs)
